@@ -3,7 +3,7 @@ import glob
 import json
 import os
 
-from . import core, gen_pos, merge_family, treejson as TJ
+from . import core, gen_pos, hist_run, merge_family, treejson as TJ
 
 CHECKS = {}
 
@@ -42,6 +42,11 @@ def merge_cases(pid, tier, seed):
             cases += list(gen_pos.story_cases(ns=(0, 1, 2, 3, 4, 5), max_src=3, big_patterns=('every', 'lead')))
             cases += list(gen_pos.item_cases(ms=(0, 1, 2, 3, 4), max_src=3, positions=(0, 1, 2)))
         cases += list(gen_pos.other_cases())
+    # G-hist: every step of seeded random histories run on live objects ("from every reachable state")
+    n_hist = 150 if tier == 'quick' else 1500
+    hists = hist_run.run_histories([seed * 100003 + k for k in range(n_hist)],
+                                   max_steps=12 if tier == 'quick' else 40)
+    cases += hist_run.history_cases(hists)
     return cases
 
 
@@ -51,7 +56,8 @@ def make_merge_check(pid):
         oc = merge_family.evaluate(pid, cases)
         oc.exhaustive = True
         oc.extra['scope'] = ('G-pos enumerated completely for the tier scope (see harness/gen_pos.py and '
-                             'registry.merge_cases) + corpus of past failures')
+                             'registry.merge_cases) + every step of seeded random state-aware histories run on '
+                             'live objects (G-hist) + corpus of past failures')
         return oc
     return run
 
